@@ -12,12 +12,18 @@ import (
 	"gosym/term"
 )
 
-func f32bits(f float32) uint32   { return math.Float32bits(f) }
-func f64bits(f float64) uint64   { return math.Float64bits(f) }
-func f32from(b uint32) float32   { return math.Float32frombits(b) }
-func f64from(b uint64) float64   { return math.Float64frombits(b) }
-func i64c(v int64) *term.Term    { return term.Const(64, uint64(v)) }
-func intOf(v Value) (int, bool)  { t, ok := v.(*term.Term); if !ok || !t.IsConst() { return 0, false }; return int(t.SignedVal()), true }
+func f32bits(f float32) uint32 { return math.Float32bits(f) }
+func f64bits(f float64) uint64 { return math.Float64bits(f) }
+func f32from(b uint32) float32 { return math.Float32frombits(b) }
+func f64from(b uint64) float64 { return math.Float64frombits(b) }
+func i64c(v int64) *term.Term  { return term.Const(64, uint64(v)) }
+func intOf(v Value) (int, bool) {
+	t, ok := v.(*term.Term)
+	if !ok || !t.IsConst() {
+		return 0, false
+	}
+	return int(t.SignedVal()), true
+}
 
 type intrinsicFn func(e *Engine, fn *ssa.Function, args []Value) Value
 
